@@ -157,8 +157,9 @@ def o_marginal(spec):
 
 @st.composite
 def invalid_cases(draw, tier):
-    return {"kind": draw(st.sampled_from(["empty", "negative", "unequal", "all_zero", "bad_key_type", "negative_int_key"])),
-            "d": draw(dist_spec(max_keys=5))}
+    return {"kind": draw(st.sampled_from(["empty", "negative", "negative", "negative_total_one", "unequal", "unequal_total_one", "all_zero", "bad_key_type", "negative_int_key"])),
+            "d": draw(dist_spec(max_keys=5)), "neg": draw(st.sampled_from([-0.25, -1e-3, -1.0, -0.5, -3.0])),
+            "pos": draw(st.integers(0, 4))}
 
 
 def o_invalid(spec):
@@ -170,7 +171,25 @@ def o_invalid(spec):
         bad = {}
     elif k == "negative":
         bad = dict(d)
-        bad[next(iter(bad))] = -0.25
+        bad[list(bad)[spec.get("pos", 0) % len(bad)]] = spec.get("neg", -0.25)
+    elif k == "negative_total_one":
+        # values that already sum to 1 although one of them is negative (e.g. {a: 1.5, b: -0.5})
+        keys = list(d)
+        if len(keys) < 2:
+            keys = [tuple([0] * spec["d"]["n"]), tuple([1] * spec["d"]["n"])]
+        neg = spec.get("neg", -0.25)
+        bad = {key: 0.0 for key in keys}
+        bad[keys[spec.get("pos", 0) % len(keys)]] = neg
+        share = (1.0 - neg) / (len(keys) - 1)
+        for key in keys:
+            if bad[key] == 0.0:
+                bad[key] = share
+        if not abs(sum(bad.values()) - 1.0) < 1e-12 or min(bad.values()) >= 0:
+            return {"inconclusive": "construction"}
+    elif k == "unequal_total_one":
+        tot = sum(d.values())
+        bad = {key: v / tot / 2 for key, v in d.items()}
+        bad[tuple([0] * (spec["d"]["n"] + 1))] = 0.5
     elif k == "unequal":
         bad = dict(d)
         bad[tuple([0] * (spec["d"]["n"] + 1))] = 0.5
@@ -180,8 +199,9 @@ def o_invalid(spec):
         bad = {3: 1.0}
     else:
         bad = {tuple([-1] * spec["d"]["n"]): 1.0}
-    must_raise((RuntimeError, ValueError, IndexError), lambda: MeasurementOutcomeDistribution(bad), f"constructor with {k} input")
-    return {"classes": ["kind:" + k], "nontrivial": k in ("negative", "unequal", "all_zero")}
+    # only "normalisation on" (the default) is in the statement's scope
+    must_raise((RuntimeError, ValueError, IndexError), lambda: MeasurementOutcomeDistribution(bad), f"constructor with {k} input {bad}")
+    return {"classes": ["kind:" + k], "nontrivial": k in ("negative", "negative_total_one", "unequal", "unequal_total_one", "all_zero")}
 
 
 @st.composite
